@@ -30,7 +30,7 @@ def _report_violations(ctx, vs, params):
 
 def run(ctx):
     quick = ctx.quick
-    n_hist, budget = (24, 50) if quick else (160, 160)
+    n_hist, budget = (24, 80) if quick else (160, 200)
     replay_only = None
     if getattr(ctx, "replay", None):
         rp = json.load(open(ctx.replay))
